@@ -147,6 +147,13 @@ def set_attrs(w, attr, n):
 def exec_probe(w, p, cache):
     """Ask the real code one query described by p; returns p with 'res' filled in."""
     q, a = p["q"], p["a"]
+    if q == "nb" and p.get("eph"):
+        # a short-lived callable, created for this call only and dropped afterwards
+        res = call(lambda: nums(w, helpers.neighbors(w.o(a[0]), direction_sensitive=a[1], unknown_handling=a[2],
+                                                     filterfunc=_mk_filter(w, p["f"], 2))))
+        out = dict(p)
+        out["res"] = res
+        return out
     if q == "nb":
         ff = mk_filter(w, p["f"], 2)
         res = call(lambda: nums(w, helpers.neighbors(w.o(a[0]), direction_sensitive=a[1],
@@ -195,13 +202,23 @@ def msets(S):
     return out
 
 
-def descs_trav(S, density, salt):
+def msets_some(S, salt, k):
+    """None, the full set and k hash-chosen proper subsets (big pools)"""
+    allm = msets(S)
+    n = S["bv"]
+    keep = [m for m in allm if m == (-1,) or len(m) == n]
+    rest = [m for m in allm if m != (-1,) and len(m) < n]
+    rest.sort(key=lambda m: h(salt, m))
+    return keep + rest[:k]
+
+
+def descs_trav(S, density, salt, big=False, unks=(0, 1, 2)):
     if not all(qdom(S, v) for v in range(1, S["bv"] + 1)):
         return
-    for M in msets(S):
+    for M in (msets_some(S, (salt, S["ends"]), 3) if big else msets(S)):
         starts = range(1, S["bv"] + 1) if M == (-1,) else M
         for s in starts:
-            for d, u in itertools.product((0, 1, 2), (0, 1, 2)):
+            for d, u in itertools.product((0, 1, 2), unks):
                 hv = h(salt, S["ends"], S["vl"], M, s, d, u)
                 combos = [("bft", NOF, NOF), ("dftr", NOF, NOF), ("dfti", NOF, NOF),
                           (("ibft", "idftr", "idfti")[hv % 3], NOF, NOF)]
@@ -225,14 +242,28 @@ def attr_vectors(n, salt, count):
     return out[:count]
 
 
-def descs_search(S, salt, count):
+def pair_vectors(n):
+    """exactly two vertices carry value 1, the others value 2 or nothing: 'first match' among duplicates"""
+    out = []
+    for i in range(n):
+        for j in range(i + 1, n):
+            out.append([1 if x in (i, j) else (2 if (x + i) % 2 else 0) for x in range(n)])
+    return out
+
+
+def descs_search(S, salt, count, big=False):
     n = S["bv"]
     if not all(qdom(S, v) for v in range(1, n + 1)):
         return
     NO = len(S["vl"])
-    for vec in attr_vectors(n, (salt, S["ends"]), count):
+    vecs = attr_vectors(n, (salt, S["ends"]), count)
+    if big:
+        pv = pair_vectors(n)
+        pv.sort(key=lambda v: h(salt, S["ends"], v))
+        vecs = vecs[:2] + pv[:max(2, count)]
+    for vec in vecs:
         attr = list(vec) + [0] * (NO - n)
-        for M in msets(S):
+        for M in (msets_some(S, (salt, S["ends"]), 1) if big else msets(S)):
             starts = range(1, n + 1) if M == (-1,) else M
             for s in starts:
                 for val in (1, 2, 3):
@@ -253,6 +284,13 @@ def descs_cache(S, full, nofilter=False):
         if qdom(S, v):
             for d, u, f in keys:
                 yield desc("nb", (v, d, u), f=f)
+            if not nofilter:
+                # two different short-lived filters in a row (a memo keyed by anything weaker than the callable
+                # itself confuses them)
+                for f in (ALLF, REJ, sel(V=[v]), sel(L=[1])):
+                    dsc = desc("nb", (v, 1, 1), f=f)
+                    dsc["eph"] = True
+                    yield dsc
     if all(qdom(S, v) for v in range(1, n + 1)) and all(0 not in S["ends"][e] for e in range(S["nl"])):
         for s in range(1, n + 1):
             for q in (("bft", "dftr", "dfti") if full else ("bft", "dfti" if s % 2 else "dftr")):
@@ -269,9 +307,9 @@ def descs(S, spec):
     if kind == "C09":
         return itertools.chain(descs_fl(S), descs_nb(S, filters=LINK_FILTERS))
     if kind in ("C06", "C07"):
-        return descs_trav(S, spec.get("density", 1), spec.get("seed", 0))
+        return descs_trav(S, spec.get("density", 1), spec.get("seed", 0), spec.get("big", False), tuple(spec.get("unks", (0, 1, 2))))
     if kind == "C08":
-        return descs_search(S, spec.get("seed", 0), spec.get("vectors", 4))
+        return descs_search(S, spec.get("seed", 0), spec.get("vectors", 4), spec.get("big", False))
     raise ValueError(kind)
 
 
